@@ -106,17 +106,17 @@ Print Assumptions C20_gen_rejects.
 
 (* ---------------------------------------------------------------------- download *)
 
-(** For EVERY list of mirror scripts: if mirror i is reachable with body b (HEAD ok, GET ok,
-    body read) and every earlier mirror fails with something the loop catches (any
-    RequestException: connection error, timeout, non-OK HEAD, GET error status, body read
-    error), then [download] returns normally, the target file holds its PREVIOUS content
-    followed by b (the code opens it with mode "ab"), and the transport saw exactly mirrors
+(** For EVERY list of mirror scripts and ANY prior state of the target (missing, empty, or with
+    content): if mirror i is reachable with body b (HEAD ok, GET ok, body read) and every earlier
+    mirror fails with something the loop catches (any RequestException: connection error, timeout,
+    non-OK HEAD, GET error status, body read error), then [download] returns normally, the target
+    file holds EXACTLY b (it is opened with mode "wb"), and the transport saw exactly mirrors
     0..i, each once, in order, HEAD before GET; later mirrors are never contacted. *)
 Theorem C20_download_first_reachable : forall ms st i m b,
   dl_path st = true ->
   nth_error ms i = Some m -> classify m = Reach b ->
   (forall j mj, (j < i)%nat -> nth_error ms j = Some mj -> classify mj = Fail) ->
-  download ms st = (DOk tt, {| dl_path := true; dl_file := Some (content st ++ b) |},
+  download ms st = (DOk tt, {| dl_path := true; dl_file := Some b |},
                     calls_seq 0 (firstn (S i) ms)).
 Proof.
   intros ms st i m b Hp Hn Hc Hf. unfold download.
@@ -124,31 +124,29 @@ Proof.
 Qed.
 Print Assumptions C20_download_first_reachable.
 
-(** With the fresh temporary file of the constructor the file holds exactly b. *)
+(** In particular on the fresh temporary file of the constructor, and when download() is
+    called again on the same object (idempotent on the file). *)
 Theorem C20_download_fresh_exact : forall ms i m b,
   nth_error ms i = Some m -> classify m = Reach b ->
   (forall j mj, (j < i)%nat -> nth_error ms j = Some mj -> classify mj = Fail) ->
-  dl_file (snd (fst (download ms dl_fresh))) = Some b.
+  dl_file (snd (fst (download ms dl_fresh))) = Some b /\
+  download ms (snd (fst (download ms dl_fresh))) = download ms dl_fresh.
 Proof.
   intros ms i m b Hn Hc Hf.
-  rewrite (C20_download_first_reachable ms dl_fresh i m b eq_refl Hn Hc Hf). reflexivity.
+  rewrite (C20_download_first_reachable ms dl_fresh i m b eq_refl Hn Hc Hf). cbn [fst snd dl_file].
+  split; [reflexivity|].
+  apply (C20_download_first_reachable ms _ i m b eq_refl Hn Hc Hf).
 Qed.
 Print Assumptions C20_download_fresh_exact.
 
-(** "Exactly the first reachable mirror's bytes" is FALSE for a target that already has
-    content (a user-supplied existing file_path, or download() called twice on one object):
-    the bytes are appended.  Witness: second call of download() on the same object. *)
-Theorem C20_download_exact_refuted : exists ms st b,
-  dl_path st = true /\ nth_error ms 0 = Some (OSuccess b) /\
-  dl_file (snd (fst (download ms st))) <> Some b /\
-  (* the witness state is reachable: it is the state after a first download() *)
-  st = snd (fst (download ms dl_fresh)) /\
-  dl_file (snd (fst (download ms st))) = Some (b ++ b).
-Proof.
-  exists [OSuccess [65%Z; 66%Z]], {| dl_path := true; dl_file := Some [65%Z; 66%Z] |}, [65%Z; 66%Z].
-  vm_compute. repeat split; try reflexivity. discriminate.
-Qed.
-Print Assumptions C20_download_exact_refuted.
+(** Pre-repair behaviour (mode "ab", before /repo commit be88f64), under the explicit variant
+    [write_file_append]: a second write leaves b ++ b, whereas [write_file] leaves b.  This is
+    what the monitor clause download_exact_bytes reports if the repair is reverted. *)
+Example C20_pre_repair_append_documented :
+  let b := [65; 66]%Z in
+  write_file_append {| dl_path := true; dl_file := Some b |} b = DOk {| dl_path := true; dl_file := Some (b ++ b) |} /\
+  write_file {| dl_path := true; dl_file := Some b |} b = DOk {| dl_path := true; dl_file := Some b |}.
+Proof. split; reflexivity. Qed.
 
 (** DownloadError is raised iff EVERY mirror fails with a caught error (vacuously for an empty
     list); then the file is untouched and every mirror was tried once, in order. *)
@@ -173,12 +171,12 @@ Proof. intros ms st. exact (download_from_abort ms 0 st). Qed.
 Print Assumptions C20_download_abort.
 
 (** Mirrors are tried in list order, without skipping or retrying, whatever happens; the file
-    changes only when the call returns normally, and then only by appending. *)
+    changes only when the call returns normally, and then holds one mirror's body. *)
 Theorem C20_download_in_order : forall ms st,
   (exists n, (n <= length ms)%nat /\ snd (download ms st) = calls_seq 0 (firstn n ms)) /\
   (forall i m, snd (attempt_mirror i m) = [CHead i] \/ snd (attempt_mirror i m) = [CHead i; CGet i]) /\
   match fst (fst (download ms st)) with
-  | DOk _ => exists b, snd (fst (download ms st)) = {| dl_path := true; dl_file := Some (content st ++ b) |}
+  | DOk _ => exists b, snd (fst (download ms st)) = {| dl_path := true; dl_file := Some b |}
   | DRaise _ => snd (fst (download ms st)) = st
   end.
 Proof.
